@@ -60,6 +60,7 @@ func genTasks() {
 		fmt.Fprintf(&sb, "def %s : Nat := %s\n", n, want[n])
 	}
 	sb.WriteString(genFetchSection(fset, f))
+	sb.WriteString(genSlotSection(fset, f))
 	sb.WriteString("\nend PB.Gen.Tasks\n")
 	write("Tasks.lean", sb.String())
 }
@@ -247,7 +248,12 @@ func fetchInterp(fset *token.FileSet, stmts []ast.Stmt, acc fetchLeaf) *fetchTre
 			}
 			return &fetchTree{leaf: acc, leafIsSet: true}
 		case *ast.ExprStmt:
-			switch exprStmtString(fset, st) {
+			src := exprStmtString(fset, st)
+			if isRunWithLockingCall(x.X) {
+				// arguments (if any) are read per call site by genSlotSection
+				src = "t.runWithLocking()"
+			}
+			switch src {
 			case "scheduleLock.Unlock()":
 				acc.unlocked = true
 			case "t.runWithLocking()":
@@ -344,4 +350,266 @@ func fetchEmit(t *fetchTree) string {
 		y, n = n, y
 	}
 	return "(if " + t.cond + " then " + y + " else " + n + ")"
+}
+
+// ---- end of runWithLocking: the queue slot ----------------------------------------------------------
+//
+// After its locked check section and the waits, runWithLocking raises queueCnt, starts the executor
+// goroutine and starts the watcher goroutine that lowers queueCnt again (context of the execution over, or
+// maxExecutionWait). The statements from the first of these three to the end of the function are read per
+// call site (queue handler / schedule handler): conditions may only be bool parameters of runWithLocking,
+// which are evaluated with the literal arguments of the call site. Emitted: how many times each caller
+// raises the count, starts an executor and starts a watcher. Anything else stops the extraction.
+
+func isRunWithLockingCall(e ast.Expr) bool {
+	ce, ok := e.(*ast.CallExpr)
+	if !ok {
+		return false
+	}
+	sel, ok := ce.Fun.(*ast.SelectorExpr)
+	if !ok || sel.Sel.Name != "runWithLocking" {
+		return false
+	}
+	id, ok := sel.X.(*ast.Ident)
+	return ok && id.Name == "t"
+}
+
+type slotCount struct{ inc, exec, watch int }
+
+func genSlotSection(fset *token.FileSet, f *ast.File) string {
+	fd := findFunc(f, "runWithLocking", "Task")
+	if fd == nil {
+		die("tasks: func (t *Task) runWithLocking not found")
+	}
+	var params []string
+	if fd.Type.Params != nil {
+		for _, fl := range fd.Type.Params.List {
+			id, ok := fl.Type.(*ast.Ident)
+			if !ok || id.Name != "bool" {
+				die("tasks: runWithLocking: parameter of a type other than bool: %s", exprString(fset, fl.Type))
+			}
+			for _, n := range fl.Names {
+				params = append(params, n.Name)
+			}
+		}
+	}
+	// call sites
+	envs := map[string]map[string]bool{}
+	for _, d := range f.Decls {
+		cfd, ok := d.(*ast.FuncDecl)
+		if !ok || cfd.Body == nil {
+			continue
+		}
+		ast.Inspect(cfd.Body, func(n ast.Node) bool {
+			ce, ok := n.(*ast.CallExpr)
+			if !ok {
+				return true
+			}
+			sel, ok := ce.Fun.(*ast.SelectorExpr)
+			if !ok || sel.Sel.Name != "runWithLocking" {
+				return true
+			}
+			who := map[string]string{"taskQueueHandler": "queue", "taskScheduleHandler": "direct"}[cfd.Name.Name]
+			if who == "" || cfd.Recv != nil {
+				die("tasks: runWithLocking is called from %s (known callers: taskQueueHandler, taskScheduleHandler)", cfd.Name.Name)
+			}
+			if _, dup := envs[who]; dup {
+				die("tasks: %s calls runWithLocking twice", cfd.Name.Name)
+			}
+			if !isRunWithLockingCall(ce) {
+				die("tasks: %s: runWithLocking is not called on `t`: %s", cfd.Name.Name, exprString(fset, ce))
+			}
+			if len(ce.Args) != len(params) {
+				die("tasks: %s: runWithLocking called with %d arguments, declared with %d", cfd.Name.Name, len(ce.Args), len(params))
+			}
+			env := map[string]bool{}
+			for i, a := range ce.Args {
+				id, ok := a.(*ast.Ident)
+				if !ok || (id.Name != "true" && id.Name != "false") {
+					die("tasks: %s: argument %s of runWithLocking is not a literal true/false", cfd.Name.Name, exprString(fset, a))
+				}
+				env[params[i]] = id.Name == "true"
+			}
+			envs[who] = env
+			return true
+		})
+	}
+	for _, who := range []string{"queue", "direct"} {
+		if _, ok := envs[who]; !ok {
+			die("tasks: no call of runWithLocking by the %s caller found", who)
+		}
+	}
+	// the tail of the body
+	mentions := func(n ast.Node) bool {
+		found := false
+		ast.Inspect(n, func(m ast.Node) bool {
+			if id, ok := m.(*ast.Ident); ok && (id.Name == "queueCnt" || id.Name == "executeWithLocking" || id.Name == "queueFree") {
+				found = true
+			}
+			return !found
+		})
+		return found
+	}
+	start := -1
+	for i, st := range fd.Body.List {
+		if mentions(st) {
+			start = i
+			break
+		}
+	}
+	if start < 0 {
+		die("tasks: runWithLocking: no statement touching queueCnt / executeWithLocking found")
+	}
+	res := map[string]slotCount{}
+	for who, env := range envs {
+		c := slotCount{}
+		slotInterp(fset, fd.Body.List[start:], env, &c)
+		res[who] = c
+	}
+	var sb strings.Builder
+	sb.WriteString("\n/-! End of `runWithLocking` (from the first statement touching `queueCnt` to the end of the function), read\n")
+	sb.WriteString("    from the source per call site (`direct` = called by the schedule handler, else by the queue handler;\n")
+	sb.WriteString("    conditions on bool parameters are evaluated with the literal arguments of the call site): how often the\n")
+	sb.WriteString("    caller raises `queueCnt`, starts `executeWithLocking`, and starts the watcher that lowers `queueCnt`\n")
+	sb.WriteString("    again when the execution's context is over or after `maxExecutionWait`. -/\n\n")
+	emit := func(name string, get func(slotCount) int) {
+		fmt.Fprintf(&sb, "def %s (direct : Bool) : Nat := if direct then %d else %d\n", name, get(res["direct"]), get(res["queue"]))
+	}
+	emit("slotsTaken", func(c slotCount) int { return c.inc })
+	emit("executorsStarted", func(c slotCount) int { return c.exec })
+	emit("watchersStarted", func(c slotCount) int { return c.watch })
+	return sb.String()
+}
+
+// slotInterp interprets the statements; it reports whether the path has returned.
+func slotInterp(fset *token.FileSet, stmts []ast.Stmt, env map[string]bool, c *slotCount) bool {
+	for _, st := range stmts {
+		if isIgnorableCall(st) {
+			continue
+		}
+		switch x := st.(type) {
+		case *ast.ReturnStmt:
+			if len(x.Results) != 0 {
+				die("tasks: runWithLocking: return with a value")
+			}
+			return true
+		case *ast.ExprStmt:
+			if exprString(fset, x.X) != "atomic.AddInt32(&queueCnt, 1)" {
+				die("tasks: runWithLocking, start of the execution: unknown statement %s", exprStmtString(fset, st))
+			}
+			if c.exec > 0 {
+				die("tasks: runWithLocking: queueCnt is raised after the executor goroutine was started")
+			}
+			c.inc++
+		case *ast.GoStmt:
+			if exprString(fset, x.Call) == "t.executeWithLocking()" {
+				c.exec++
+				continue
+			}
+			fl, ok := x.Call.Fun.(*ast.FuncLit)
+			if !ok || len(x.Call.Args) != 0 {
+				die("tasks: runWithLocking: unknown goroutine %s", exprStmtString(fset, st))
+			}
+			slotWatcher(fset, fl)
+			c.watch++
+		case *ast.IfStmt:
+			if x.Init != nil {
+				die("tasks: runWithLocking, start of the execution: if with init statement")
+			}
+			v := slotCond(fset, x.Cond, env)
+			var blk []ast.Stmt
+			if v {
+				blk = x.Body.List
+			} else {
+				switch e := x.Else.(type) {
+				case nil:
+				case *ast.BlockStmt:
+					blk = e.List
+				default:
+					die("tasks: runWithLocking, start of the execution: else-if chain")
+				}
+			}
+			if slotInterp(fset, blk, env, c) {
+				return true
+			}
+		default:
+			die("tasks: runWithLocking, start of the execution: unknown statement %s", exprStmtString(fset, st))
+		}
+	}
+	return false
+}
+
+func slotCond(fset *token.FileSet, e ast.Expr, env map[string]bool) bool {
+	switch x := e.(type) {
+	case *ast.ParenExpr:
+		return slotCond(fset, x.X, env)
+	case *ast.UnaryExpr:
+		if x.Op == token.NOT {
+			return !slotCond(fset, x.X, env)
+		}
+	case *ast.Ident:
+		if v, ok := env[x.Name]; ok {
+			return v
+		}
+		if x.Name == "true" || x.Name == "false" {
+			return x.Name == "true"
+		}
+	}
+	die("tasks: runWithLocking: the queue slot is taken / handed back under a condition that is not a bool parameter: %s", exprString(fset, e))
+	return false
+}
+
+// slotWatcher checks the shape of the goroutine that hands the slot back:
+// select { case <-t.ctx.Done(): case <-time.After(maxExecutionWait): }; if atomic.AddInt32(&queueCnt, -1) == 0 { signal queueFree }
+func slotWatcher(fset *token.FileSet, fl *ast.FuncLit) {
+	var body []ast.Stmt
+	for _, st := range fl.Body.List {
+		if !isIgnorableCall(st) {
+			body = append(body, st)
+		}
+	}
+	if len(body) != 2 {
+		die("tasks: slot watcher: expected a select followed by the decrement, found %d statements", len(body))
+	}
+	sel, ok := body[0].(*ast.SelectStmt)
+	if !ok || len(sel.Body.List) != 2 {
+		die("tasks: slot watcher: first statement is not a two-way select")
+	}
+	want := map[string]bool{"<-t.ctx.Done()": false, "<-time.After(maxExecutionWait)": false}
+	for _, cl := range sel.Body.List {
+		cc := cl.(*ast.CommClause)
+		if cc.Comm == nil || len(cc.Body) != 0 {
+			die("tasks: slot watcher: select clause with a body or a default clause")
+		}
+		s := exprStmtString(fset, cc.Comm)
+		if seen, ok := want[s]; !ok || seen {
+			die("tasks: slot watcher: unknown wait %s", s)
+		}
+		want[s] = true
+	}
+	ifs, ok := body[1].(*ast.IfStmt)
+	if !ok || ifs.Init != nil || ifs.Else != nil || exprString(fset, ifs.Cond) != "atomic.AddInt32(&queueCnt, -1) == 0" {
+		die("tasks: slot watcher: second statement is not `if atomic.AddInt32(&queueCnt, -1) == 0 {...}`")
+	}
+	if len(ifs.Body.List) != 1 {
+		die("tasks: slot watcher: unexpected body of the release signal")
+	}
+	s2, ok := ifs.Body.List[0].(*ast.SelectStmt)
+	if !ok || len(s2.Body.List) != 2 {
+		die("tasks: slot watcher: the release signal is not a non-blocking send")
+	}
+	sent := false
+	for _, cl := range s2.Body.List {
+		cc := cl.(*ast.CommClause)
+		if cc.Comm == nil {
+			continue
+		}
+		if exprStmtString(fset, cc.Comm) != "queueFree <- struct{}{}" || len(cc.Body) != 0 {
+			die("tasks: slot watcher: unknown release signal %s", exprStmtString(fset, cc.Comm))
+		}
+		sent = true
+	}
+	if !sent {
+		die("tasks: slot watcher: queueFree is not signalled")
+	}
 }
